@@ -73,3 +73,27 @@ package newick
 //@   ensures forall t int :: 0 <= t && t < len(Y) && Y[t].1 != nil ==> t == len(Y)-1
 //@   loop 1
 //@     invariant !openFails(file) && len(Y) == K && forall t int :: 0 <= t && t < K ==> same(Y[t], ZR[t])
+
+// ---- writer ----
+
+//@ func Node.newick
+//@   props C05 C07
+//@   requires n != nil
+//@   requires forall x ref, j int :: 0 <= j && j < len(x.Children) ==> x.Children[j] != nil
+//@   ensures len(buf.out) >= old(len(buf.out))
+//@   loop 1
+//@     invariant n != nil && len(buf.out) >= old(len(buf.out)) + 1
+
+//@ func Node.MarshalText
+//@   props C05 C07
+//@   requires n != nil
+//@   requires forall x ref, j int :: 0 <= j && j < len(x.Children) ==> x.Children[j] != nil
+//@   ensures result.1 == nil
+//@   ensures len(result.0) >= 1 && result.0[len(result.0)-1] == ';'
+
+//@ func Node.Write
+//@   props C05 C07
+//@   requires n != nil && !w.failed
+//@   requires forall x ref, j int :: 0 <= j && j < len(x.Children) ==> x.Children[j] != nil
+//@   ensures result == nil <==> !w.failed
+//@   ensures result == nil || ioErr(result)
